@@ -189,6 +189,9 @@ func corrConc(seed uint64, n int, tier string, out string, replay string) {
 			left[pick]--
 		}
 		concRun(m, rep, c, id.Seed, id.Index)
+		if id.Index%15 == 3 {
+			pendingOnTopCase(rep, NewRng(id.Seed, uint64(id.Index)+1<<33), id.Seed, id.Index)
+		}
 	}
 	if tier == "thorough" && replayFile == "" {
 		// every interleaving of every pair, on every history
@@ -408,5 +411,56 @@ func concRun(m *Model, rep *Report, c concCase, seed uint64, idx int) {
 		if strings.HasPrefix(r.Status, "pending") {
 			rep.Issue(Issue{Kind: "monitor", Fingerprint: "C09:history:pending", What: fmt.Sprintf("revision %d is still %s at quiescence", r.Rev, r.Status), Case: c, Impl: after, Seed: seed, Index: idx})
 		}
+	}
+}
+
+// pendingOnTopCase: an operation that is in flight (or died in flight) shows as a pending record on top of the
+// history -- pending-install, pending-upgrade or pending-rollback (the rollback may be the one an atomic upgrade
+// runs).  An upgrade that starts now is the loser: it fails with the in-progress error, creates no revision and
+// touches no resource.
+func pendingOnTopCase(rep *Report, r *Rng, seed uint64, idx int) {
+	backend := []string{"memory", "secrets"}[idx%2]
+	w := newSimWorld(newBackend(backend))
+	defer w.close()
+	in := action.NewInstall(w.cfg())
+	in.ReleaseName, in.Namespace, in.DisableOpenAPIValidation = "app", "default", true
+	if _, err := in.Run(actChart(1, false, false), map[string]any{}); err != nil {
+		return
+	}
+	status := Pick(r, []release.Status{release.StatusPendingInstall, release.StatusPendingUpgrade, release.StatusPendingRollback, release.StatusPendingRollback})
+	cs := map[string]any{"scenario": "pending-on-top", "backend": backend, "status": string(status)}
+	rep.Count(cs, true)
+	st := storage.Init(w.inner)
+	v1, err := st.Get("app", 1)
+	if err != nil {
+		return
+	}
+	cp := *v1
+	info := *v1.Info
+	cp.Info = &info
+	cp.Version = 2
+	cp.Info.Status = status
+	cp.Info.Description = "in flight"
+	if status == release.StatusPendingInstall {
+		// an install in flight has no deployed predecessor
+		st.Delete("app", 1)
+		cp.Version = 1
+	}
+	if err := st.Create(&cp); err != nil {
+		return
+	}
+	w.revive()
+	before := canon(implLedger(w))
+	logFrom := len(w.api.log)
+	up := action.NewUpgrade(w.cfg())
+	up.Namespace, up.DisableOpenAPIValidation, up.Force = "default", true, r.Chance(30)
+	_, uerr := up.Run("app", actChart(3, false, false), map[string]any{})
+	muts := w.api.mutations(logFrom)
+	rep.H(fmt.Sprintf("pending-on-top:%s:err=%v", status, uerr != nil))
+	if uerr == nil || !strings.Contains(uerr.Error(), "in progress") {
+		rep.Issue(Issue{Kind: "monitor", Fingerprint: "C09:pending-on-top:not-refused:" + string(status), What: fmt.Sprintf("an upgrade started while the newest record is %s did not fail with the in-progress error: %v", status, uerr), Case: cs, Impl: implLedger(w), Seed: seed, Index: idx})
+	}
+	if len(muts) > 0 || canon(implLedger(w)) != before {
+		rep.Issue(Issue{Kind: "monitor", Fingerprint: "C09:pending-on-top:loser-touched:" + string(status), What: fmt.Sprintf("an upgrade started while the newest record is %s changed the cluster or the history", status), Case: cs, Model: before, Impl: map[string]any{"requests": muts, "history": implLedger(w)}, Seed: seed, Index: idx})
 	}
 }
